@@ -694,7 +694,7 @@ def fr_log(q):
     return math.log(q.numerator) - math.log(q.denominator)
 
 
-E2E_KINDS = ["matern", "matern_ard", "warped", "warped2", "product", "expdecay", "tuple_scale"]
+E2E_KINDS = ["matern", "matern_ard", "warped", "warped2", "product", "expdecay", "tuple_scale", "warped_product"]
 
 
 def build_model(kind, d, zero_mean, delta_fixed=None):
@@ -720,6 +720,12 @@ def build_model(kind, d, zero_mean, delta_fixed=None):
                                                     delta_fixed_value=delta_fixed)
     elif kind == "tuple_scale":
         k = Matern52(d, ARD=True, has_covariance_scale=False)
+    elif kind == "warped_product":
+        # input warping around a product of a stationary factor and a factor whose diagonal depends on the input
+        # (exponential-decay resource kernel, resource = last coordinate); the warping covers the resource
+        k1 = Matern52(1, ARD=True)
+        k2 = ExponentialDecayResourcesKernelFunction(Matern52(1, ARD=True), ScalarMeanFunction(), delta_fixed_value=delta_fixed)
+        k = WarpedKernel(ProductKernelFunction(k1, k2), [Warping(3, (2, 3))])
     else:
         raise ValueError(kind)
     if kind == "expdecay":
@@ -739,6 +745,8 @@ def kernel_dim(kind, d):
         return max(1, d - 1) + 1
     if kind == "warped2":
         return max(3, d)
+    if kind == "warped_product":
+        return 3
     return d
 
 
@@ -845,7 +853,7 @@ def run_e2e08(spec):
 
     K = kmat(X, X)
     # composite kernels: the value must be the composition of the parts (each part is the real object)
-    if kind in ("warped", "warped2"):
+    if kind in ("warped", "warped2", "warped_product"):
         def warp(Z):
             for w in k.warpings:
                 Z = np.asarray(w(Z))
@@ -1102,7 +1110,8 @@ def run_e2e09_fit(spec):
 def gen_e2e09_acq(rng, tier):
     return {"kind": "e2e09_acq", "seed": rng.randrange(10 ** 9), "d": rng.choice([1, 2, 3]),
             "n": rng.choice([3, 4, 6, 9]), "pending": rng.choice([0, 0, 1, 2]), "nf": rng.choice([1, 2, 4]),
-            "ard": rng.random() < 0.5, "acq": rng.choice(["ei", "ei", "lcb"]), "normalize": rng.random() < 0.7}
+            "ard": rng.random() < 0.5, "acq": rng.choice(["ei", "ei", "lcb", "cei", "eipu"]), "normalize": rng.random() < 0.7,
+            "shuffled": rng.random() < 0.5}
 
 
 def run_e2e09_acq(spec):
@@ -1145,6 +1154,8 @@ def run_e2e09_acq(spec):
         pred = est.fit_from_state(state, update_params=False)
     finally:
         np.random.set_state(np_state)
+    if spec["acq"] in ("cei", "eipu"):
+        return _run_two_output_acq(spec, rng, hist, hp, Xt, d, n)
     if spec["acq"] == "ei":
         acq = AF.EIAcquisitionFunction(pred)
     else:
@@ -1224,6 +1235,104 @@ def run_e2e09_acq(spec):
                     mon.append(F("c09:acq-gradient-not-derivative",
                                  f"{spec['acq']} on an overriding predictor: d acq / d x[{i}] = {grad[i]:.10g}, {r:.10g} by Richardson "
                                  f"central differences (error estimate {err:.2e})", {"spec": spec, "x": x.tolist()}))
+        # ... and the first predictor object used again after its estimator has been fitted to other data: whatever
+        # posterior it now stands for, value and gradient have to come from the same one
+        for _ in range(2):
+            x = np.array([rng.uniform(0.05, 0.95) for _ in range(d)])
+            fval, grad = acq.compute_acq_with_gradient(x.copy())
+            alone = float(np.asarray(acq.compute_acq(x.copy())).reshape(-1)[0])
+            hist["acq_reused_predictor_points"] = hist.get("acq_reused_predictor_points", 0) + 1
+            if not close([fval], [alone]):
+                mon.append(F("c09:value-with-gradient-differs",
+                             f"{spec['acq']}, predictor used again after its estimator was refitted: compute_acq_with_gradient value {fval}, "
+                             f"compute_acq {alone} at {x.tolist()}", {"spec": spec}))
+                break
+            if abs(alone) < 1e-8:
+                continue
+
+            def fr(v):
+                return float(np.asarray(acq.compute_acq(v.copy())).reshape(-1)[0])
+            grad = np.asarray(grad, dtype=float).reshape(-1)
+            for i in range(d):
+                r, err = richardson(fr, x, i, 1e-4)
+                tol = fd_tol(grad[i], r, err, abs(alone))
+                if not abs(grad[i] - r) <= tol:
+                    mon.append(F("c09:acq-gradient-not-derivative",
+                                 f"{spec['acq']}, predictor used again after its estimator was refitted: d acq / d x[{i}] = {grad[i]:.10g}, "
+                                 f"{r:.10g} by Richardson central differences (error estimate {err:.2e})", {"spec": spec, "x": x.tolist()}))
+    hist["acq_points_checked"] = npts
+    return {"lines": [], "monitor": mon, "meta": {"hist": hist, "nontrivial": npts > 0, "dev": {"c09:acq-gradient": worst}}}
+
+
+def _run_two_output_acq(spec, rng, hist, hp, Xt, d, n):
+    """constrained EI / EI per unit cost on TWO real GP predictors (objective + constraint or cost); the dictionary of
+    predictors lists the active metric first or second: `compute_acq_with_gradient` must return the value of `compute_acq`
+    and its derivative either way"""
+    from syne_tune.optimizer.schedulers.searchers.bayesopt.datatypes.common import INTERNAL_METRIC_NAME
+    from syne_tune.optimizer.schedulers.searchers.bayesopt.models.gp_model import GaussProcEmpiricalBayesEstimator
+    from syne_tune.optimizer.schedulers.searchers.bayesopt.utils.test_objects import create_tuning_job_state
+    from syne_tune.optimizer.schedulers.searchers.bayesopt.gpautograd.gp_regression import GaussianProcessRegression
+    mon = []
+    sec = "constraint_metric" if spec["acq"] == "cei" else "cost_metric"
+    Ys = []
+    for x in Xt:
+        y = math.sin(3 * x[0]) + sum(z * z for z in x[1:]) + 0.1 * rng.gauss(0, 1)
+        c = (x[0] - 0.6 + 0.05 * rng.gauss(0, 1)) if spec["acq"] == "cei" else (0.5 + x[0] + 0.05 * abs(rng.gauss(0, 1)))
+        Ys.append({INTERNAL_METRIC_NAME: y, sec: c})
+    if spec["acq"] == "cei" and not any(y[sec] <= 0 for y in Ys):
+        Ys[0][sec] = -0.2  # at least one feasible observation: a feasible incumbent exists
+    state = create_tuning_job_state(hp_ranges=hp, cand_tuples=list(Xt), metrics=Ys)
+    preds = {}
+    for name in (INTERNAL_METRIC_NAME, sec):
+        gpm = GaussianProcessRegression(kernel=Matern52(d, ARD=spec["ard"]), random_seed=spec["seed"] % 1000)
+        params = gpm.get_params()
+        for key in params:
+            if key == "noise_variance":
+                params[key] = math.exp(rng.uniform(math.log(1e-3), math.log(0.3)))
+            elif key.startswith("kernel_inv_bw"):
+                params[key] = math.exp(rng.uniform(-1, 1.2))
+            elif key == "kernel_covariance_scale":
+                params[key] = math.exp(rng.uniform(-1, 1))
+        gpm.set_params(params)
+        est = GaussProcEmpiricalBayesEstimator(active_metric=name, gpmodel=gpm, num_fantasy_samples=1, normalize_targets=spec["normalize"])
+        preds[name] = est.fit_from_state(state, update_params=False)
+    order = [sec, INTERNAL_METRIC_NAME] if spec.get("shuffled") else [INTERNAL_METRIC_NAME, sec]
+    pdict = {k: preds[k] for k in order}
+    hist["acq_dict_order:" + ("active-second" if spec.get("shuffled") else "active-first")] = 1
+    try:
+        if spec["acq"] == "cei":
+            acq = AF.CEIAcquisitionFunction(pdict, active_metric=INTERNAL_METRIC_NAME)
+        else:
+            acq = AF.EIpuAcquisitionFunction(pdict, active_metric=INTERNAL_METRIC_NAME, exponent_cost=rng.choice([1.0, 0.5]))
+    except Exception as e:  # noqa
+        return {"lines": [], "monitor": [F("c09:acq-constructor-raises", f"{spec['acq']} with predictors {order}: {type(e).__name__}: {e}", {"spec": spec})],
+                "meta": {"hist": hist, "nontrivial": False}}
+    worst, npts = 0.0, 0
+    for _ in range(5):
+        x = np.array([rng.uniform(0.05, 0.95) for _ in range(d)])
+        fval, grad = acq.compute_acq_with_gradient(x.copy())
+        alone = float(np.asarray(acq.compute_acq(x.copy())).reshape(-1)[0])
+        if abs(alone) < 1e-7:
+            hist["ei_point_skipped_tail"] = hist.get("ei_point_skipped_tail", 0) + 1
+            continue
+        npts += 1
+        if not close([fval], [alone]):
+            mon.append(F("c09:value-with-gradient-differs",
+                         f"{spec['acq']} (predictor dictionary order {order}): compute_acq_with_gradient value {fval} != compute_acq {alone} "
+                         f"at {x.tolist()}", {"spec": spec}))
+            break
+
+        def f(v):
+            return float(np.asarray(acq.compute_acq(v.copy())).reshape(-1)[0])
+        grad = np.asarray(grad, dtype=float).reshape(-1)
+        for i in range(d):
+            r, err = richardson(f, x, i, 1e-4)
+            tol = fd_tol(grad[i], r, err, abs(alone))
+            worst = max(worst, abs(grad[i] - r) / tol)
+            if not abs(grad[i] - r) <= tol:
+                mon.append(F("c09:acq-gradient-not-derivative",
+                             f"{spec['acq']} (predictor dictionary order {order}): d acq / d x[{i}] = {grad[i]:.10g}, {r:.10g} by Richardson "
+                             f"central differences (error estimate {err:.2e})", {"spec": spec, "x": x.tolist()}))
     hist["acq_points_checked"] = npts
     return {"lines": [], "monitor": mon, "meta": {"hist": hist, "nontrivial": npts > 0, "dev": {"c09:acq-gradient": worst}}}
 
